@@ -251,6 +251,10 @@ func (r *Runner) runHarness(rel string, fn *ssa.Function, workers int) *HarnessR
 		if o.Alloc {
 			x.Opt.AllocLimit = func(n int) int64 { return 64*int64(n) + 16<<20 }
 		}
+		if o.Mode == "R" {
+			x.LiftMode = "R"
+			x.NewLifter = func(c *smt.Ctx) ssaexec.Lifter { return lift.NewR(c) }
+		}
 		if o.Mode == "G" {
 			x.LiftMode = "G"
 			x.NewLifter = func(c *smt.Ctx) ssaexec.Lifter { return lift.NewG(c) }
